@@ -646,3 +646,4 @@ def replay(case):
             f'(observed via {"start_response" if case["via"] == "wsgi" else "headerlist"}): {v[1]}')
 
 MANIFEST['text'] += ' str-subclass values and the Set-Cookie lines of set_cookie (values and attributes above U+00FF; read back by a client-side parser) are covered.'
+MANIFEST['text'] += ' Multi-valued headers are built by all programs of <= 4 append / setitem / look-at-the-header-list operations; `headers` may be a HeaderDict, a generator or a read-only mapping.'
